@@ -90,6 +90,7 @@ const (
 	VForgedWrongLink = "forged-wronglink" // unsigned, wrong Prev
 	VInvalidFields   = "invalid-fields"   // signed, Validate fails
 	VWrongChain      = "wrong-chain"      // signed, other chain id
+	VNoChain         = "no-chain"         // signed, empty chain id
 	VFarFuture       = "far-future"       // signed, time far ahead of now
 	VBeforeGenesis   = "before-genesis"   // signed, time before any chain time
 	VSignedRelink    = "signed-relink"    // signed, wrong Prev (fails only adjacently)
@@ -112,6 +113,8 @@ func (c *Chain) Variant(kind string, h uint64, salt uint64) *Header {
 		v.Invalid = true
 	case VWrongChain:
 		v.Chain = base.Chain + "-other"
+	case VNoChain:
+		v.Chain = ""
 	case VFarFuture:
 		v.T = base.T + int64(1_000_000*time.Hour)
 	case VBeforeGenesis:
